@@ -245,6 +245,15 @@ func c03Chains(r *Run) {
 			}
 		}
 	}
+	// conditions that START with a negation and go on with a binary operator: `!` binds tighter than && || == (the negation workaround of
+	// evalConditionExpr must not swallow the rest of the expression), in every consumer
+	for _, e := range c03NegExprs {
+		for _, a := range []bool{false, true} {
+			for _, b := range []bool{false, true} {
+				r.Add(c03NegCase(e.src, e.f(a, b), a, b))
+			}
+		}
+	}
 	// uniform truthiness across the five consumers, for every value kind
 	for _, v := range c03Values() {
 		r.Add(c03UniformCase(v))
@@ -314,6 +323,43 @@ func c03LoopedChainCase(ch c03Chain, mask int, tail string) *Case {
 	return c
 }
 
+var c03NegExprs = []struct {
+	src string
+	f   func(a, b bool) bool
+}{
+	{"!a && b", func(a, b bool) bool { return !a && b }}, {"!a || b", func(a, b bool) bool { return !a || b }}, {"!a && !b", func(a, b bool) bool { return !a && !b }},
+	{"!(a && b)", func(a, b bool) bool { return !(a && b) }}, {"!a == b", func(a, b bool) bool { return !a == b }}, {"b && !a", func(a, b bool) bool { return b && !a }},
+	{"(!a) && b", func(a, b bool) bool { return !a && b }}, {"!a", func(a, b bool) bool { return !a }}, {"!a != b", func(a, b bool) bool { return !a != b }},
+	{"!a||b", func(a, b bool) bool { return !a || b }}, {"!a&&b", func(a, b bool) bool { return !a && b }},
+}
+
+func c03NegCase(expr string, want bool, a, b bool) *Case {
+	tpl := `<p v-if="` + expr + `">[if]</p><p v-else>[else]</p><i v-if="no">n</i><p v-else-if="` + expr + `">[elseif]</p><q v-show="` + expr + `">S</q><s :class="{on: ` + expr + `}">C</s>`
+	d := map[string]any{"a": a, "b": b, "no": false}
+	res := renderPage(map[string]string{"p.vuego": tpl}, "p.vuego", d)
+	pendingPages = append(pendingPages, pageCase("chain", map[string]string{"p.vuego": tpl}, nil, "p.vuego", d, "placement:negated-compound"))
+	c := &Case{Name: fmt.Sprintf("negated compound %q a=%v b=%v", expr, a, b), Input: map[string]any{"stream": "negated", "expr": expr, "a": a, "b": b, "want": want, "tpl": tpl},
+		Impl: res.canon(), Oracle: &Verdict{OK: true}, Tags: []string{"stream:chain", "placement:negated-compound"}}
+	c.Key = c.Name
+	if res.Err != "" || res.Panic != "" || res.Timeout {
+		c.Oracle = &Verdict{OK: false, Class: "chain-render-failed:negated-compound", Detail: fmt.Sprintf("%+v", res)}
+		return c
+	}
+	seen := map[string]bool{
+		"v-if":      strings.Contains(res.Out, "[if]") && !strings.Contains(res.Out, "[else]"),
+		"v-else-if": strings.Contains(res.Out, "[elseif]"),
+		"v-show":    !strings.Contains(res.Out, "display:none"),
+		"class-obj": strings.Contains(res.Out, `class="on"`),
+	}
+	for _, k := range []string{"v-if", "v-else-if", "v-show", "class-obj"} {
+		if seen[k] != want {
+			c.Oracle = &Verdict{OK: false, Class: "negated-compound:" + k, Detail: fmt.Sprintf("%s=%q with a=%v b=%v is %v, expected %v; output %q", k, expr, a, b, seen[k], want, res.Out)}
+			return c
+		}
+	}
+	return c
+}
+
 var c03ConsumerRe = regexp.MustCompile(`\[(if|elseif|show|attr|class)\]`)
 
 func c03UniformCase(v any) *Case {
@@ -364,6 +410,13 @@ func c03ReplayChain(r *Run, replay *Case) {
 		remarshal(replay.Input["kinds"], &kinds)
 		remarshal(replay.Input["truth"], &truth)
 		r.Add(c03LoopedChainCase(c03Chain{kinds, truth}, int(replay.Input["mask"].(float64)), replay.Input["tail"].(string)))
+	case "negated":
+		for _, e := range c03NegExprs {
+			if e.src == replay.Input["expr"] {
+				a, b := replay.Input["a"] == true, replay.Input["b"] == true
+				r.Add(c03NegCase(e.src, e.f(a, b), a, b))
+			}
+		}
 	case "uniform":
 		r.Add(c03UniformCase(fromVal(replay.Input["x"].(map[string]any))))
 	}
